@@ -117,7 +117,11 @@ class Env:
                 self.path.assume(x < hi)
             return x
         if name in self.assignment:
-            return float(Fraction(self.assignment[name]))
+            q = Fraction(self.assignment[name])
+            # a replayed input outside the declared domain is not an input of the obligation: no verdict from it
+            if (nonzero and q == 0) or (positive and q <= 0) or (nonneg and q < 0) or (lo is not None and q < lo) or (hi is not None and q >= hi):
+                raise Abort()
+            return float(q)
         v = Fraction(default) if default is not None else _default(self.seed, name, "R")
         return float(v)
 
@@ -140,7 +144,10 @@ class Env:
             self.path.assume((x >= lo) & (x <= hi))
             return x
         if name in self.assignment:
-            return int(Fraction(self.assignment[name]))
+            v = int(Fraction(self.assignment[name]))
+            if not (lo <= v <= hi):
+                raise Abort()  # outside the declared range: not an input of the obligation
+            return v
         return lo + (_default(self.seed, name, "I") % (hi - lo + 1)) if default is None else default
 
     def const(self, arr):
